@@ -481,7 +481,12 @@ def timeout_base(rng: random.Random, i: int) -> dict:
         if h['kind'][0] == 'a' and rng.random() < 0.25:
             h['cleanup'] = rng.choice([0.01, 0.15, 0.4])  # needs this long to unwind after being cancelled
         if h['kind'][0] == 'a' and rng.random() < 0.2:
-            h['cleanup_disp'] = [rng.randrange(2, 4), rng.randrange(nb)]  # dispatches an event from its except-CancelledError block
+            # dispatches an event from its except-CancelledError block - of a type strictly BELOW its own in the dispatch order (programs
+            # dispatch downwards only): a cancelled handler whose clean-up re-creates the very kind of event whose handlers get
+            # cancelled is a program that never ends
+            t_own = h['pat'] if isinstance(h['pat'], int) else (int(h['pat'][1:]) if isinstance(h['pat'], str) and h['pat'][1:].isdigit() else 3)
+            if t_own < 3:
+                h['cleanup_disp'] = [rng.randrange(max(2, t_own + 1), 4), rng.randrange(nb)]
     # the root is the first actor's first dispatch: make it level 0 on bus 0, awaited, then a later event + idle
     sc['actors'] = [[['disp', 0, 0, 'await', 0, {}]], [['sleep', rng.choice([0.0, 0.05, 0.3])], ['disp', 1, rng.randrange(nb), 'await', 0, {}]]]
     # make sure the root has at least one awaiting handler with a child that itself awaits a grandchild
